@@ -25,6 +25,8 @@ func (b gwBehaviour) String() string {
 	switch b.kind {
 	case "reply-type":
 		return fmt.Sprintf("from datagram #%d answers everything with %s", b.k, snref.TypeName(b.typ))
+	case "repeat":
+		return fmt.Sprintf("answers datagram #%d with %s every second for ten minutes, then and otherwise silent", b.k, snref.TypeName(b.typ))
 	case "normal":
 		return "normal"
 	}
@@ -49,6 +51,19 @@ func hostileHandler(sg *simpleGw, b gwBehaviour) func(g *world.GwPeer, p *snref.
 		}
 		switch b.kind {
 		case "silent":
+		case "repeat":
+			// answers the k-th datagram with one packet type, again and again (faster than the
+			// client's RetryDelay) for ten minutes, and nothing else
+			if i == b.k {
+				mid := uint16(0)
+				if p != nil {
+					mid = p.MsgID
+				}
+				r := &snref.Pkt{Type: b.typ, MsgID: mid, TopicID: 1}
+				for n := 0; n < 600; n++ {
+					g.SendAfter(time.Duration(n)*time.Second, r)
+				}
+			}
 		case "disconnect":
 			if i == b.k {
 				g.Send(snref.Disconnect())
@@ -112,6 +127,9 @@ func TestC28(t *testing.T) {
 	for _, ty := range []byte{snref.CONNACK, snref.REGISTER, snref.REGACK, snref.PUBLISH, snref.PUBACK, snref.PUBREC, snref.PUBREL, snref.PUBCOMP, snref.SUBACK, snref.UNSUBACK, snref.PINGRESP, snref.DISCONNECT, snref.WILLTOPICREQ, snref.WILLMSGREQ, snref.CONNECT, snref.PINGREQ, snref.ADVERTISE} {
 		behaviours = append(behaviours, gwBehaviour{kind: "reply-type", k: 1, typ: ty}, gwBehaviour{kind: "reply-type", k: 2, typ: ty})
 	}
+	for _, ty := range []byte{snref.PUBREC, snref.PUBACK, snref.PUBCOMP, snref.SUBACK, snref.REGACK, snref.UNSUBACK, snref.PINGRESP, snref.DISCONNECT, snref.CONNACK} {
+		behaviours = append(behaviours, gwBehaviour{kind: "repeat", k: 1, typ: ty})
+	}
 	type cs struct {
 		b      gwBehaviour
 		c1, c2 int // c2 = -1: no second call
@@ -136,7 +154,7 @@ func TestC28(t *testing.T) {
 	if !r.Thorough() {
 		var sub []cs
 		for i, c := range cases {
-			if i%2 == int(r.Seed%2) || c.b.kind == "silent" {
+			if i%2 == int(r.Seed%2) || c.b.kind == "silent" || c.b.kind == "repeat" {
 				sub = append(sub, c)
 			}
 		}
@@ -216,5 +234,5 @@ func TestC28(t *testing.T) {
 			r.Sample(map[string]interface{}{"case": c.Desc, "trace_head": world.Strings(evs, 16)})
 		}
 	})
-	r.Finish("real client library (RetryCount 1, RetryDelay 2 s, ConnectTimeout 2 s; keep-alive off or 3 s with a ping in flight) against a scripted gateway in virtual time. Gateway behaviours: normal; silent from its k-th received datagram on (k=0..4); DISCONNECT on its k-th datagram (k=0..4); undecodable replies; from datagram 1 or 2 on answering everything with one fixed packet type (17 types incl. unsolicited acks, REGISTER, PUBLISH, CONNECT, ADVERTISE). Calls: Connect, then each of Register/Subscribe/Publish QoS 0-2/Unsubscribe/Ping/Sleep(5 s)/Disconnect, alone and (for normal, silent and disconnecting gateways) together with each second call, then Close. Oracle: every call has returned when virtual time has advanced by twice the bound (RetryCount+1) x max(ConnectTimeout, RetryDelay) + sleep duration + 60 s + 1 s; 3 s after Close returned the runtime's goroutine dump shows no goroutine of the bubble inside bisquitt code. Quick tier: every second case (all 'silent' cases).", nil)
+	r.Finish("real client library (RetryCount 1, RetryDelay 2 s, ConnectTimeout 2 s; keep-alive off or 3 s with a ping in flight) against a scripted gateway in virtual time. Gateway behaviours: normal; silent from its k-th received datagram on (k=0..4); DISCONNECT on its k-th datagram (k=0..4); undecodable replies; from datagram 1 or 2 on answering everything with one fixed packet type (17 types incl. unsolicited acks, REGISTER, PUBLISH, CONNECT, ADVERTISE); answering the call's first datagram with one acknowledgement type repeated every second for ten minutes (9 types). Calls: Connect, then each of Register/Subscribe/Publish QoS 0-2/Unsubscribe/Ping/Sleep(5 s)/Disconnect, alone and (for normal, silent and disconnecting gateways) together with each second call, then Close. Oracle: every call has returned when virtual time has advanced by twice the bound (RetryCount+1) x max(ConnectTimeout, RetryDelay) + sleep duration + 60 s + 1 s; 3 s after Close returned the runtime's goroutine dump shows no goroutine of the bubble inside bisquitt code. Quick tier: every second case (all 'silent' cases).", nil)
 }
